@@ -4,7 +4,9 @@ ID=$1; P=${ID%%-*}
 cd /verif
 [ -z "$(git -C /repo status --short)" ] || { echo "/repo not clean"; exit 2; }
 git -C /repo apply seeded/$ID/patch.diff 2>/dev/null || git -C /repo apply -3 seeded/$ID/patch.diff 2>/dev/null || (cd /repo && patch -p1 -F3 -s < /verif/seeded/$ID/patch.diff) || { echo "cannot apply"; git -C /repo checkout -- .; exit 2; }
+cp evidence/$P.json /tmp/evidence_$P.keep 2>/dev/null
 ./check $P --tier quick > /tmp/seedrun_$ID.log 2>&1; RC=$?
+[ -f /tmp/evidence_$P.keep ] && mv /tmp/evidence_$P.keep evidence/$P.json
 git -C /repo checkout -- . ; git -C /repo clean -fdq -- optimism >/dev/null 2>&1
 find /repo -name "*.orig" -o -name "*.rej" | xargs -r rm -f
 OBS=$(grep -o "obligation=[^ ]*" /tmp/seedrun_$ID.log | sed 's/obligation=//; s/@path[0-9]*//' | sort -u | head -6 | tr '\n' ' ')
